@@ -207,7 +207,7 @@ def record_planning(name, net, eq, data, chk, policy='first_fit'):
     import gnpy.tools.worker_utils as wu
     from gnpy.topology.spectrum_assignment import build_path_oms_id_list, BitmapValue
     from gnpy.core.elements import Edfa, Multiband_amplifier
-    from harness.checks.c15 import fidx
+    from harness.checks.c15 import fidx, bands_of
     orig = wu.pth_assign_spectrum
     box = {}
 
@@ -221,7 +221,7 @@ def record_planning(name, net, eq, data, chk, policy='first_fit'):
                 raise Machinery(f'{name}: OMS {o.oms_id} index axis differs from OMS 0')
             # the usable band is what the OMS's amplifiers have in common (configuration), not what the bitmap says:
             # the bitmap is only taken at its word for an OMS without any amplifier (SI default band)
-            amps = [[(fidx(x['f_min'], 'lo'), fidx(x['f_max'], 'hi')) for x in e.params.bands]
+            amps = [[(fidx(x['f_min'], 'lo'), fidx(x['f_max'], 'hi')) for x in bands_of(e)]
                     for e in o.el_list if isinstance(e, (Edfa, Multiband_amplifier))]
             if amps:
                 common = [all(any(lo <= n <= hi for lo, hi in a) for a in amps) for n in b.freq_index]
